@@ -109,7 +109,7 @@ def verus_part(unit_name, threads=16, rlimit=200, builder_kwargs=None, tag='', i
                    functions_verified=res.summary.get('verified') if hasattr(res, 'summary') else None,
                    functions_under_contract=sorted(unit.contracts.keys()), lemmas=sorted(unit.lemmas.keys()),
                    not_under_contract=unit.not_under_contract,
-                   assumption_scan=assumption_scan(unit.text()))
+                   assumption_scan=assumption_scan(unit.text()), crate_fns=unit.census)
     pr.unit = unit
     pr.res = res
     pr.assumptions = list(unit.assumptions)
@@ -124,6 +124,11 @@ def verus_part(unit_name, threads=16, rlimit=200, builder_kwargs=None, tag='', i
         nver = res.summary.get('verified', 0) + res.summary.get('errors', 0) if hasattr(res, 'summary') and res.summary else 0
         if not res.compile_errors and nver < baseline.get('functions', 0):
             pr.undecided.append('verus reported %d functions, baseline has %d' % (nver, baseline.get('functions', 0)))
+        for cname, fns in (baseline.get('crate_fns') or {}).items():
+            new_fns = sorted(set(unit.census.get(cname, [])) - set(fns))
+            if new_fns:
+                pr.undecided.append('functions of %s that are not in the committed census (new code that no contract covers, e.g. an override of a '
+                                    'defaulted trait method or a new impl): %s' % (cname, new_fns[:8]))
         allow = baseline.get('assumption_scan')
         if allow is not None and allow != pr.info['assumption_scan']:
             pr.undecided.append('assumption scan differs from the committed allow-list: %s vs %s' % (pr.info['assumption_scan'], allow))
